@@ -1239,6 +1239,15 @@ func (k checker) ladder(next func() bool) {
 			for _, f := range plyref.Formats {
 				k.eval(cs.withFormat(f))
 			}
+			if n >= 8191 {
+				// the same rung with the process limited to three processors (the job's default is two)
+				cs.Files = false
+				c.WithProcs(3, func() {
+					for _, f := range plyref.Formats {
+						k.eval(cs.withFormat(f))
+					}
+				})
+			}
 		}
 	}
 }
